@@ -42,6 +42,7 @@ func ruleC19(w *World, r *Report) {
 	r.Explanation = "R19.1 every CFG path through ConfigHandler.ServeHTTP emits exactly one HTTP response (path enumeration, response = call that reaches ResponseWriter.WriteHeader), with 201 only on the decoded PUT/POST path, 4xx on read/decode failure, 405 otherwise; " +
 		"R19.2 the datapath-programming call is reachable only through the PUT/POST arms and only on paths where io.ReadAll's and json.Unmarshal's errors were established nil; " +
 		"R19.3 calculateBitRates' unit→factor decision table (bps 1, Kbps 1e3, Gbps 1e9, Mbps/other 1e6) by constant-factor extraction per path, and field provenance from the posted document through SliceInfo into the BESS slice-meter arguments and the UP4 MeterConfig / slice-TC index."
+	r.Explanation += " R19.6 P4rtcInfo.DefaultTC is written only before the file is decoded (0 is a legal class; a fill-in-when-zero afterwards changes the configured cell)."
 	r.NotDecided = "arithmetic at the 63-bit edge; what BESS/UP4 do with the meter values"
 	r.Assumptions = []string{"net/http calls ServeHTTP once per request", "encoding/json fills NetworkSlice per its struct tags (library behaviour)"}
 	const P = "C19"
@@ -499,6 +500,7 @@ func ruleC19(w *World, r *Report) {
 	}
 	ruleC19SliceMeter(w, r)
 	ruleC19UP4(w, r)
+	ruleC19DefaultTC(w, r)
 }
 
 func orDash(s string) string {
@@ -843,4 +845,47 @@ func ruleC19UP4(w *World, r *Report) {
 		a0, a1 := symOf(c.Common().Args[0]).String(), symOf(c.Common().Args[1]).String()
 		r.check(a0 == "UP4.conf.SliceID" && a1 == "UP4.conf.DefaultTC", "R19.3", name, "GetSliceTCMeterIndex(conf.SliceID, conf.DefaultTC)", w.Pos(c.Pos()), a0+", "+a1, "slice meter cell computed from ("+a0+", "+a1+")")
 	}
+}
+
+// ruleC19DefaultTC (R19.6): the slice meter cell UP4 programs for a posted slice is indexed by the
+// *configured* default traffic class. 0 (best effort) is a legal class, so the documented default 3 can
+// only be installed before the file is decoded: a "fill in when zero" after decoding turns a configured
+// class 0 into class 3 and the POST programs another cell than the one the configuration names.
+func ruleC19DefaultTC(w *World, r *Report) {
+	const P = "C19"
+	load := w.Fn(P, "pfcpiface.LoadConfigFile")
+	var unm ssa.Instruction
+	allInstrs(load, func(i ssa.Instruction) {
+		if c, ok := i.(*ssa.Call); ok && calleeName(c) == "encoding/json.Unmarshal" {
+			unm = i
+		}
+	})
+	if unm == nil {
+		r.bad("R19.6", w.FuncName(load), "the configuration is decoded by encoding/json", w.Pos(load.Pos()), "no json.Unmarshal call in LoadConfigFile")
+		return
+	}
+	n := 0
+	for _, f := range w.Funcs {
+		fname := w.FuncName(f)
+		if strings.HasPrefix(fname, "test/") || strings.HasPrefix(fname, "pkg/") {
+			continue
+		}
+		allInstrs(f, func(i ssa.Instruction) {
+			st, ok := i.(*ssa.Store)
+			if !ok {
+				return
+			}
+			fa, ok := st.Addr.(*ssa.FieldAddr)
+			if !ok || fieldVar(fa) == nil || fieldVar(fa).Name() != "DefaultTC" {
+				return
+			}
+			if nt := namedOf(fa.X.Type()); nt == nil || nt.Obj().Name() != "P4rtcInfo" {
+				return
+			}
+			n++
+			okS := f == load && instrDominates(st, unm)
+			r.check(okS, "R19.6", fname, "the default traffic class is only pre-set before decoding", w.Pos(st.Pos()), "store dominates json.Unmarshal", "default_tc is written after the file was decoded: a configured class 0 (best effort) cannot be told from a missing one and is replaced, so a posted slice is metered in the cell of another traffic class")
+		})
+	}
+	r.floor("R19.6 writers of P4rtcInfo.DefaultTC", n, 1)
 }
